@@ -27,7 +27,7 @@ RULE = ('cases: (a) exhaustive: n in 2..N systems x priority pattern {all distin
         'times. Non-trivial: the system set really changed during a step; distinct by (priorities, actor positions, actions).')
 ASSUMPTIONS = ['whether a system registered mid-timestep first runs in that timestep or the next is left open',
                'the oracle is computed from the script: a system removed before its turn does not perform its own scripted action']
-FLOORS = {'quick': {'cases_in_mode_optimised': 857, 'models_that_are_deep_copies': 1109, 'timesteps_cut_short_by_a_failing_system': 1353, 'histories_with_failing_systems': 833, 'other_model_stepped_inside_our_timestep': 2713, 'str_subclass_ids': 11455, 'falsy_system_objects': 9414, 'action_steps': 2400, 'act_cleanup': 60, 'act_remove_earlier': 90, 'act_remove_later': 90, 'act_add_higher': 120,
+FLOORS = {'quick': {'worlds_with_bystanders_whose_windows_close_early': 2587, 'cases_in_mode_optimised': 857, 'models_that_are_deep_copies': 1109, 'timesteps_cut_short_by_a_failing_system': 1353, 'histories_with_failing_systems': 833, 'other_model_stepped_inside_our_timestep': 2713, 'str_subclass_ids': 11455, 'falsy_system_objects': 9414, 'action_steps': 2400, 'act_cleanup': 60, 'act_remove_earlier': 90, 'act_remove_later': 90, 'act_add_higher': 120,
                     'act_add_equal': 60, 'act_add_lower': 120, 'act_replace_earlier': 200, 'act_replace_later': 200, 'act_readd_self': 200,
                     'act_readd_earlier': 200, 'act_compound': 500, 'act_readd_later': 200, 'blocks_multi': 2000, 'blocks_single': 2000, 'removed_via_clean_up': 300, 'big_histories': 20, 'big_history_changes': 1000, 'quiet_steps': 4000, 'two_actor_steps': 1000,
                     'reach:Core.SystemManager.execute_systems': 5000, 'reach:Core.System.clean_up': 60},
